@@ -251,6 +251,56 @@ namespace
                         ctx.rep.hit("reused-graph-state-differs-from-fresh");
                     }
                 }
+                // Boruvka's large-degree / edge-bucket path needs a basin with more than 16
+                // adjacency entries, which grids of <= 16 nodes cannot produce: run the same world
+                // with the private threshold lowered to 1, 2, 3 (fresh graph each).  A world on
+                // which the contraction ends with a non-empty large-degree list (the algorithm's
+                // standing assumption fails for that artificial threshold) is pre-screened on a
+                // separate basin graph and not judged.
+                if ((prop == "C01" || prop == "C02") && f.empty() && c.prog.str().rfind("single+mst:b:", 0) == 0)
+                {
+                    using impl_t = typename Built<G>::impl_t;
+                    for (std::size_t thr : { std::size_t(1), std::size_t(2), std::size_t(3) })
+                    {
+                        {
+                            Built<G> pb = build_graph(grid, Program::parse("single"), c.p);
+                            configure(*pb.fg, c);
+                            auto fld = make_field(grid, c.elev);
+                            pb.fg->update_routes(fld);
+                            pb.fg->impl_ptr()->compute_basins();
+                            fs::basin_graph<impl_t> bg(pb.fg->impl(), fs::mst_method::boruvka);
+                            bg.m_max_low_degree = thr;
+                            bg.update_routes(fld);
+                            ++ctx.rep.ops;
+                            if (!bg.m_large_degrees.empty())
+                            {
+                                ctx.rep.hit("low-threshold-worlds-not-judged");
+                                continue;
+                            }
+                        }
+                        Built<G> tb = build_graph(grid, c.prog, c.p);
+                        configure(*tb.fg, c);
+                        if (!set_boruvka_threshold(tb, thr))
+                            break;
+                        auto fld = make_field(grid, c.elev);
+                        const auto& tout = tb.fg->update_routes(fld);
+                        ++ctx.rep.ops;
+                        ctx.rep.hit("low-threshold-worlds-judged");
+                        GState ts = extract_state(tb.fg->impl(), tout);
+                        if (ts.digest(false) == s.digest(false))
+                            continue;
+                        ctx.rep.hit("low-threshold-state-differs-from-default");
+                        Findings tf;
+                        FlowInputs tin = inputs(c, *tb.fg, c.elev);
+                        if (prop == "C01")
+                            oracle_c01(tin, ts, resolver_class(c.prog), tf);
+                        else
+                            oracle_c02(tin, ts, resolver_class(c.prog), tf);
+                        for (auto& x : tf)
+                            x.sig += "/boruvka-low-degree-threshold";
+                        report(tf, c, "update_routes with the Boruvka low-degree threshold lowered to " + std::to_string(thr));
+                    }
+                }
                 if (prop != "C04")
                 {
                     std::size_t filled = 0;
